@@ -370,8 +370,13 @@ func c18Run(c c18Case, st *vstat.Stats) error {
 	stateH := int(crashDisk.committed().Height)
 	backlog := tip - stateH
 	labels := []string{fmt.Sprintf("backlog=%d", min(backlog, 4)), "phase:" + map[bool]string{true: c.Phase, false: "idle"}[c.Backlog > 0]}
+	// the labels the vm-level C18 stages call essential (same meaning at this level)
+	labels = append(labels, map[bool]string{true: "backlog>=1", false: "backlog=0"}[backlog >= 1],
+		map[bool]string{true: "index-state>=2", false: "index-state<=1"}[backlog >= 2])
 	if c.IndexOnly {
-		labels = append(labels, "crash-after-index-write")
+		labels = append(labels, "crash-after-index-write", "side:consensus-thread")
+	} else if c.Backlog > 0 {
+		labels = append(labels, "side:accepter-thread")
 	}
 	if committedUnnotified {
 		labels = append(labels, "committed-unnotified")
